@@ -90,6 +90,11 @@ MUTANTS = [
     ("C17", "seeded C17r-1: RuntimeWarning for out-of-domain functions", "@patch", "/verif/seeded/C17r-1/patch.diff", None),
     ("C17", "seeded C17r-2: blocked gradient beyond 32 variables", "@patch", "/verif/seeded/C17r-2/patch.diff", None),
     ("C18", "seeded C18r-1: matrix of dual-number entries shown with the wrong shape", "@patch", "/verif/seeded/C18r-1/patch.diff", None),
+    ("C05", "seeded C05s-1: mixed block dropped when a first-order part of a hand-built result is absent", "@patch", "/verif/seeded/C05s-1/patch.diff", None),
+    ("C05", "seeded C05s-2: symmetry assertion on the Hessian fires on rounding residue", "@patch", "/verif/seeded/C05s-2/patch.diff", None),
+    ("C17", "seeded C17s-2: a note attached to the callable's exception", "@patch", "/verif/seeded/C17s-2/patch.diff", None),
+    ("C18", "seeded C18s-1: nested matrix part written as one flat list", "@patch", "/verif/seeded/C18s-1/patch.diff", None),
+    ("C18", "seeded C18s-2: symbol written inside the closing bracket", "@patch", "/verif/seeded/C18s-2/patch.diff", None),
     ("C18", "seeded C18r-2: wide matrix fallback permutes entries", "@patch", "/verif/seeded/C18r-2/patch.diff", None),
     # ---- C17: conformance (fault-free) ---------------------------------------------------------------------
     ("C17", "arcsin forwards to asinh", "src/python_macro.rs", "self.0.asin().into()", "self.0.asinh().into()"),
@@ -116,6 +121,9 @@ CONTROLS = [
     # changes judged NOT to break the property as stated (recorded in DESIGN.md section 9): the checks stay silent on them
     ("C16", "seeded C16r-2: integers refused for float parts (legitimate strictness)", "@patch", "/verif/seeded/C16r-2/patch.diff", None),
     ("C17", "seeded C17o-1: __eq__ / __hash__ on the real part (mirrors Rust's PartialEq)", "@patch", "/verif/seeded/C17o-1/patch.diff", None),
+    ("C16", "seeded C16s-1: missing parts default to zero (legitimate leniency)", "@patch", "/verif/seeded/C16s-1/patch.diff", None),
+    ("C16", "seeded C16s-2: field keys accepted as strings only (legitimate strictness)", "@patch", "/verif/seeded/C16s-2/patch.diff", None),
+    ("C17", "seeded C17s-1: jacobian accepts a list only (what its message documents)", "@patch", "/verif/seeded/C17s-1/patch.diff", None),
     # C16 promises names, values and completeness - not the order of the fields, the struct's name, or strictness
     ("C16", "Dual: fields declared (and therefore written) in another order", "@patch", "/verif/tools/controls16/k1_fields_declared_in_another_order.diff", None),
     ("C16", "Dual2: an alias accepted on input", "@patch", "/verif/tools/controls16/k2_alias_accepted.diff", None),
